@@ -133,7 +133,22 @@ def family():
     out = str(Root.render(render_dependencies=False))
     css_root = _between(out, "<link", ">")
     js_root = _between(out, "<script", "</script>")
-    fam.keep = (Inner, Root)
+    # ... and as the root of a component that is itself the root of another component: two id attributes
+    from django_components import registry as _registry
+
+    if "vfc08_root" not in _registry.all():
+        _registry.register("vfc08_root", Root)
+    Outer = type("VfC08Outer", (Component,), {"template": '{% component "vfc08_root" / %}'})
+    out = str(Outer.render(render_dependencies=False))
+    css_root2 = _between(out, "<link", ">")
+    js_root2 = _between(out, "<script", "</script>")
+    fam.keep = (Inner, Root, Outer)
+
+    def split_id2(s):
+        m = re.fullmatch(r"(.* data-djc-id-)([0-9A-Za-z]{6})(=\"\" data-djc-id-)([0-9A-Za-z]{6})(=\"\".*)", s, re.S)
+        if not m or s.count("data-djc-id-") != 2:
+            raise RuntimeError("unexpected nested-root placeholder %r" % s)
+        return (m.group(1), m.group(3), m.group(5))
 
     def split_id(s):
         m = re.fullmatch(r"(.* data-djc-id-)([0-9A-Za-z]{6})(=\"\".*)", s, re.S)
@@ -145,14 +160,15 @@ def family():
         if name not in s or "data-djc-id" in s:
             raise RuntimeError("unexpected placeholder %r" % s)
     fam.ph = {
-        "css": {"page": css_page, "inner": css_inner, "root": split_id(css_root)},
-        "js": {"page": js_page, "inner": js_inner, "root": split_id(js_root)},
+        "css": {"page": css_page, "inner": css_inner, "root": split_id(css_root), "root2": split_id2(css_root2)},
+        "js": {"page": js_page, "inner": js_inner, "root": split_id(js_root), "root2": split_id2(js_root2)},
     }
     idre = "[0-9A-Za-z]{6}"
 
     def alt(kind):
         d = fam.ph[kind]
-        forms = sorted({re.escape(d["page"]), re.escape(d["inner"]), re.escape(d["root"][0]) + idre + re.escape(d["root"][1])}, key=lambda x: (-len(x), x))
+        r2 = d["root2"]
+        forms = sorted({re.escape(d["page"]), re.escape(d["inner"]), re.escape(d["root"][0]) + idre + re.escape(d["root"][1]), re.escape(r2[0]) + idre + re.escape(r2[1]) + idre + re.escape(r2[2])}, key=lambda x: (-len(x), x))
         return re.compile("|".join(forms))
 
     fam.css_re = alt("css")
@@ -272,7 +288,11 @@ def seg_text(seg, fam):
         return "</" + CASE_FORMS[seg[1]][seg[3]] + seg[2] + ">"
     if k == "p":
         form = fam.ph[seg[1]][seg[2]]
-        return form if isinstance(form, str) else form[0] + seg[3] + form[1]
+        if isinstance(form, str):
+            return form
+        if len(form) == 3:  # two ids: the given one and a second one derived from it
+            return form[0] + seg[3] + form[1] + seg[3][::-1] + form[2]
+        return form[0] + seg[3] + form[1]
     if k == "m":
         a, b = fam.marker_tpl[seg[1]]
         return a + seg[2] + b
@@ -390,6 +410,8 @@ class Judged:
             lb.append("js_nowhere")
         if any(s[0] == "p" and s[2] == "root" for s in segs):
             lb.append("placeholder_root_form")
+        if any(s[0] == "p" and s[2] == "root2" for s in segs):
+            lb.append("placeholder_nested_root_form_two_ids")
         if any(s[0] == "l" for s in segs):
             lb.append("lookalike")
         if not self.doc.isascii():
@@ -615,8 +637,8 @@ def strategies(max_segments):
         "look": st.tuples(st.just("l"), st.sampled_from(LOOKALIKES)).map(list),
         "head": st.tuples(st.just("e"), st.just("head"), ws, case_idx).map(list),
         "body": st.tuples(st.just("e"), st.just("body"), ws, case_idx).map(list),
-        "cssph": st.tuples(st.just("p"), st.just("css"), st.sampled_from(["page", "page", "inner", "root"]), ids).map(list),
-        "jsph": st.tuples(st.just("p"), st.just("js"), st.sampled_from(["page", "page", "inner", "root"]), ids).map(list),
+        "cssph": st.tuples(st.just("p"), st.just("css"), st.sampled_from(["page", "page", "inner", "root", "root2"]), ids).map(list),
+        "jsph": st.tuples(st.just("p"), st.just("js"), st.sampled_from(["page", "page", "inner", "root", "root2"]), ids).map(list),
         "marker": st.tuples(st.just("m"), st.sampled_from([0, 0, 1, 2, 2, 3]), ids).map(list),
     }
 
